@@ -1177,6 +1177,17 @@ def shrink_case(case, still):
 
 # ================================================================= the check
 def judge(ctx: Ctx, case, res, origin, stats):
+    if res["outcome"] == "timeout" and not has_selfref(case):
+        # a loaded machine is not a non-terminating parse: confirm with five times the limit before judging
+        global CASE_TIMEOUT
+        old = CASE_TIMEOUT
+        CASE_TIMEOUT = old * 5
+        try:
+            res2 = run_case(case)
+        finally:
+            CASE_TIMEOUT = old
+        res.clear()
+        res.update(res2)
     dev = deviation(case, res)
     stats["outcomes"][res["outcome"].split(":")[0] if not res["outcome"].startswith("exit") else res["outcome"]] = \
         stats["outcomes"].get(res["outcome"].split(":")[0] if not res["outcome"].startswith("exit") else res["outcome"], 0) + 1
